@@ -20,7 +20,10 @@ def short(t):
 def fail_key(t, fails):
     """stable identification of a failure: action, form, failing aspect"""
     a = t["act"]
+    import re
     aspect = fails[0].split(":")[0].split("[")[0].strip()
+    aspect = re.sub(r"[-+]?\d[\d./e+-]*", "#", aspect)          # numbers are not part of the identification
+    aspect = re.sub(r"\(\s*#\s*,\s*#\s*\)", "(#, #)", aspect)[:80]
     form = a.get("form", "")
     return f"{a['name']}{('/' + form) if form else ''}:{aspect}"
 
@@ -242,7 +245,11 @@ def c10(tier):
                                        ("open", heavy.NodeSample.open_linspace, heavy.IntegratorArray.open_newton_cotes, n)):
             if fam == "closed" and n < 2:
                 continue
-            xs, ws = nodes(n), wts(n)
+            try:
+                xs, ws = nodes(n), wts(n)
+            except Exception as e:
+                rep.violation(f"Rule/{fam}:raised", {"family": fam, "n": n, "error": repr(e)})
+                continue
             try:
                 val.add({"name": "Rule", "family": fam, "n": n, "xs": core.rats(xs), "ws": core.rats(ws), "order": order})
             except TypeError as e:
@@ -252,8 +259,12 @@ def c10(tier):
     for n in range(1, (8 if tier == "quick" else 14) + 1):
         for fam, nodes, wts, order in (("chebyshev", heavy.NodeSample.chebyshev, heavy.IntegratorArray.chebyshev, n),
                                        ("gauss", heavy.NodeSample.gauss_legendre, heavy.IntegratorArray.gauss_legendre, 2 * n)):
-            xs = [float(x) for x in nodes(n)]
-            ws = [float(w) for w in wts(n)]
+            try:
+                xs = [float(x) for x in nodes(n)]
+                ws = [float(w) for w in wts(n)]
+            except Exception as e:
+                rep.violation(f"Rule/{fam}:raised", {"family": fam, "n": n, "error": repr(e)})
+                continue
             numeric += 1
             bad = []
             if len(xs) != n or len(ws) != n:
@@ -310,6 +321,9 @@ def c18(tier):
         np.random.randint = spy
         try:
             kv = G.random(p, n, Fraction)
+        except Exception as e:
+            rep.violation("KvRandom:raised", {"p": p, "n": n, "error": repr(e)})
+            continue
         finally:
             np.random.randint = real_randint
         if len(drawn) != 1:
@@ -320,7 +334,11 @@ def c18(tier):
             rep.violation("KvRandom:inexact", {"p": p, "n": n, "error": str(e), "vector": [str(x) for x in kv]})
             continue
         val.add({"name": "KvRandom", "p": p, "n": n, "w": [[x, 1] for x in drawn[0]]}, d={"U": U, "P": [], "W": []})
-        kvf = G.random(p, n)  # default float class: limits must be exactly (0.0, 1.0)
+        try:
+            kvf = G.random(p, n)  # default float class: limits must be exactly (0.0, 1.0)
+        except Exception as e:
+            rep.violation("KvRandom/float:raised", {"p": p, "n": n, "error": repr(e)})
+            continue
         if tuple(kvf.limits) != (0.0, 1.0) or kvf.degree != p or kvf.npts != n:
             rep.violation("KvRandom/float:limits_exactly_01", {"p": p, "n": n, "limits": [repr(x) for x in kvf.limits]})
     judge_events(ev, rep, val)
@@ -334,8 +352,14 @@ def c18(tier):
         lo = float(rnd.uniform(-10, 10))
         inner = sorted(lo + float(x) for x in rnd.uniform(0.1, 7, k + 1))
         vec = [lo] * (p + 1) + inner[:-1] + [inner[-1]] * (p + 1)
-        kv = lib.KnotVector(vec)
-        kv.normalize()
+        try:
+            kv = lib.KnotVector(vec)
+            kv.normalize()
+        except Exception as e:
+            bad += 1
+            if bad <= 3:
+                rep.violation("KvNormalize/float:raised", {"vector": [repr(x) for x in vec], "error": repr(e)})
+            continue
         if tuple(kv.limits) != (0.0, 1.0) or kv.degree != p or kv.npts != p + 1 + k:
             bad += 1
             if bad <= 3:
